@@ -33,7 +33,9 @@ extern "C" void harness() {
   { int m = nondet_int(); __CPROVER_assume(m >= 0 && m <= 1); e.mark_ = m == 0 ? Edge::VisitNone : Edge::VisitDone; }      /* not on the stack: VerifyDAG's case is S2 */
   bool was_done = e.mark_ == Edge::VisitDone;
   out0.exists_ = nondet_bool() ? Node::ExistenceStatusUnknown : Node::ExistenceStatusExists; out1.exists_ = Node::ExistenceStatusExists;
-  out0.dirty_ = false; out1.dirty_ = false;
+  /* on a re-visit (after a dyndep load unmarked the statement) the outputs may already be dirty from the first scan */
+  bool was_dirty = !first_visit && nondet_bool();
+  out0.dirty_ = was_dirty; out1.dirty_ = was_dirty;
   for (int i = 0; i < 4; i++) { long r = nondet_long(); __CPROVER_assume(r >= -1 && r < 1000); vf_stat_answer[i] = r; }
   for (int w = 0; w < 2; w++) { vf_inputs_dirty[w] = nondet_bool(); vf_inputs_unready[w] = nondet_bool(); vf_inputs_ret[w] = nondet_bool(); }
   vf_inputs_mri[0] = nondet_bool() ? &in0 : (Node*)0; vf_inputs_mri[1] = nondet_bool() ? &dep0 : (Node*)0;
@@ -48,14 +50,14 @@ extern "C" void harness() {
   bool ok = scan.RecomputeNodeDirty(&out0, &stack, &validations, &err);
 
   if (was_done) {
-    __CPROVER_assert(ok && vf_t_n == 0 && !out0.dirty_ && !out1.dirty_, "post C02: an edge that was already examined in this scan is not examined again (each statement is decided once)");
+    __CPROVER_assert(ok && vf_t_n == 0 && out0.dirty_ == was_dirty && out1.dirty_ == was_dirty, "post C02: an edge that was already examined in this scan is not examined again (each statement is decided once)");
   } else if (ok) {
     __CPROVER_assert(e.mark_ == Edge::VisitDone, "post C17: the edge is marked finished when the visit returns");
     __CPROVER_assert(stack.size() == 1 && stack.d_[0] == &below, "post C17: the visit stack is restored");
     __CPROVER_assert(e.deps_loaded_, "post: the edge counts as visited");
     __CPROVER_assert(validations.size() == e.validations_.size(), "post C01: the validation targets of the statement are collected for the build");
     int t_in0 = -1; for (int i = VF_T_CAP - 1; i >= 0; i--) if (i < vf_t_n && vf_t_kind[i] == T_INPUTS && vf_t_num[i] == 0) t_in0 = i;
-    __CPROVER_assert(t_in0 >= 0, "post C01: the declared inputs are examined");
+    __CPROVER_assert(t_in0 >= 0, "post C01/C17: the declared inputs are examined (visited) on every visit of an unfinished statement - also a re-visit after a dyndep load, whose walk is the cycle check");
     bool dirty_decl = vf_inputs_dirty[0];
     bool out_checked = vf_t_count(T_OUT_ALL) == 1;
     __CPROVER_assert(out_checked == !dirty_decl, "post C01: unless an input already makes it dirty, the outputs are compared with the most recent input and the log");
@@ -89,7 +91,7 @@ extern "C" void harness() {
     } else {
       __CPROVER_assert(vf_t_count(T_LOADDEPS) == 0 && vf_t_count(T_LOADDEPS_TRY) == 0, "post: dependencies are loaded once per statement");
     }
-    __CPROVER_assert(out0.dirty_ == dirty && out1.dirty_ == dirty, "post C01/C02/C10: every output of a dirty statement is marked dirty (also when the cause is a discovered dependency or missing dependency information), and no output of a clean one");
+    __CPROVER_assert(out0.dirty_ == (dirty || was_dirty) && out1.dirty_ == (dirty || was_dirty), "post C01/C02/C10: every output of a dirty statement is marked dirty (also when the cause is a discovered dependency or missing dependency information), and no output of a clean one");
     bool unready = vf_inputs_unready[0] || (first_visit && vf_t_count(T_LOADDEPS) == 1 && vf_loaddeps_mode == 0 && vf_inputs_unready[1]);
     bool expect_ready = !unready && !(dirty && !(e.vf_phony && e.inputs_.empty()));
     __CPROVER_assert(e.outputs_ready_ == expect_ready, "post C04/C02: the outputs count as ready exactly if the statement is clean and every producer of its inputs is ready");
